@@ -38,22 +38,33 @@ def programs(K):
         yield prog
 
 
-def units_of(prog):
-    """code units of the method; layout: node blocks in order, then the exit blocks; registers: v0 local, v1.. arguments"""
+def units_of(prog, join=False):
+    """code units of the method; layout: node blocks in order, then the exit blocks; registers: v0 local, v1.. arguments.
+    join=False: every exit returns its constant; join=True: v0 starts as EXITS[2], exits 0 and 1 assign their constant and
+    jump to one common return, exit 2 IS that common return (so that the conditions get a follow node, one target of a
+    condition can be the follow itself, and the writer may negate the condition)"""
     K = len(prog)
     # block sizes: node = if (2 units) [+ goto/16 (2 units) when the fall-through target is not the next block]
-    used_exits = sorted({t[1] for n in prog for t in n[1:] if t[0] == 'e'})
+    used_exits = sorted({t[1] for n in prog for t in n[1:] if t[0] == 'e' and not (join and t[1] == 2)})
     order = [('n', i) for i in range(K)] + [('e', j) for j in used_exits]
+    if join:
+        order.append(('e', 2))
     need_goto = {}
     for i, (op, t, f) in enumerate(prog):
         nxt = order[order.index(('n', i)) + 1] if order.index(('n', i)) + 1 < len(order) else None
         need_goto[i] = f != nxt
     off = {}
-    u = 0
+    u = 2 if join else 0
     for b in order:
         off[b] = u
-        u += (2 + (2 if need_goto[b[1]] else 0)) if b[0] == 'n' else 3
-    units = []
+        if b[0] == 'n':
+            u += 2 + (2 if need_goto[b[1]] else 0)
+        elif join and b[1] == 2:
+            u += 1
+        else:
+            u += 4 if join else 3
+    end = off.get(('e', 2)) if join else None
+    units = [0x0013, EXITS[2]] if join else []
     for b in order:
         if b[0] == 'n':
             op, t, f = prog[b[1]]
@@ -61,6 +72,10 @@ def units_of(prog):
             units += [(0x38 if op == 'eqz' else 0x39) | ((1 + b[1]) << 8), (off[t] - here) & 0xffff]
             if need_goto[b[1]]:
                 units += [0x0029, (off[f] - (here + 2)) & 0xffff]
+        elif join and b[1] == 2:
+            units += [0x000f]
+        elif join:
+            units += [0x0013, EXITS[b[1]], 0x0029, (end - (off[b] + 2)) & 0xffff]
         else:
             units += [0x0013, EXITS[b[1]], 0x000f]
     return units
@@ -86,9 +101,9 @@ def ref_concrete(prog, vals):
     return EXITS[t[1]]
 
 
-def build_dex(progs):
+def build_dex(progs, join=False):
     K = len(progs[0])
-    ms = [Mth('f%d' % i, 'I', ('I',) * K, 0x9, Code(1 + K, K, 0, (lambda P, p=p: units_of(p)))) for i, p in enumerate(progs)]
+    ms = [Mth('f%d' % i, 'I', ('I',) * K, 0x9, Code(1 + K, K, 0, (lambda P, p=p: units_of(p, join)))) for i, p in enumerate(progs)]
     blob, P, L = dexasm.assemble([Cls('LT;', dmethods=ms)])
     return blob
 
@@ -122,20 +137,21 @@ def silence():
 
 
 def job(jc, spec):
-    K, lo, hi = spec
+    K, lo, hi = spec[:3]
+    join = len(spec) > 3 and spec[3]
     hook.install()
     silence()
     progs = list(itertools.islice(programs(K), lo, hi))
     if not progs:
         return
-    blob = build_dex(progs)
+    blob = build_dex(progs, join)
     srcs = decompile_all(blob)
     eng = jc.new_engine()
     merged = 0
     for i, prog in enumerate(progs):
         src = srcs['f%d' % i]
-        label = 'chain of %d conditions' % K
-        w = dict(K=K, prog=[[n[0], list(n[1]), list(n[2])] for n in prog])
+        label = 'chain of %d conditions%s' % (K, ', exits joined' if join else '')
+        w = dict(K=K, join=join, prog=[[n[0], list(n[1]), list(n[2])] for n in prog])
         if src.startswith('EXC '):
             jc.concrete_violation(dict(w, args=None), label=label, what='decompiler raised: %s' % src[:120])
             continue
@@ -144,10 +160,12 @@ def job(jc, spec):
         except (SyntaxError, IndexError, KeyError) as e:
             jc.concrete_violation(dict(w, args=None, src=src), label=label, what='printed method is not Java the validator can read (%s)' % e)
             continue
+        jc.reached('programs')
         if '&&' in src or '||' in src:
             merged += 1
             jc.reached('merged conditions')
-        jc.reached('programs')
+        else:
+            continue            # no merged condition was printed: nothing of this property to judge (value equality is C21)
         A = [z3.BitVec('a%d' % k, 32) for k in range(K)]
         want = ref_value(prog, A)
 
@@ -181,8 +199,8 @@ def run(ctx):
     n2 = sum(1 for _ in programs(2))
     n3 = sum(1 for _ in programs(3))
     step = 48
-    jobs = [(2, lo, min(lo + step, n2)) for lo in range(0, n2, step)]
-    jobs += [(3, lo, min(lo + step, n3)) for lo in range(0, n3, step)]
+    jobs = [(2, lo, min(lo + step, n2), j) for lo in range(0, n2, step) for j in (False, True)]
+    jobs += [(3, lo, min(lo + step, n3), j) for lo in range(0, n3, step) for j in (False, True)]
     n4 = 0
     if ctx.thorough:
         # chains of four conditions: seeded blocks out of the full enumeration
@@ -193,9 +211,10 @@ def run(ctx):
         rnd.shuffle(los)
         los = sorted(los[:600])
         n4 = len(los) * step
-        jobs += [(4, lo, min(lo + step, total4)) for lo in los]
+        jobs += [(4, lo, min(lo + step, total4), j) for lo in los for j in (False, True)]
     ctx.bounds = dict(chains_of_2=n2, chains_of_3=n3, chains_of_4=('%d (seeded blocks of the enumeration)' % n4) if n4 else 'thorough tier only',
                       node='if-eqz / if-nez on its own int argument; taken and fall-through targets among the later nodes and 3 exits',
+                      exit_forms='each chain twice: exits return their constant / exits assign it and join in one return (conditions get a follow node)',
                       arguments='all 2^32 values per argument (only ==0 / !=0 matters)', exits=EXITS)
     ctx.stubs = ['programs assembled by vf/dexasm.py; the decompiler runs concretely on them',
                  'vf/javamini.py parses and symbolically executes the printed Java (validated against javac + java on the replayed witnesses when a JDK is present)']
@@ -203,13 +222,13 @@ def run(ctx):
     ctx.outside_claim = ['chains of five or more conditions (four: sampled in the thorough tier)', 'conditions on expressions other than a register compared with zero',
                          'chains inside loops, switches or try blocks']
     ctx.expect_reach(['programs', 'merged conditions'])
-    ctx.diff_unhooked(sys.modules[__name__], [dict(K=2, lo=0, hi=24), dict(K=3, lo=100, hi=110)])
+    ctx.diff_unhooked(sys.modules[__name__], [dict(K=2, lo=0, hi=24), dict(K=3, lo=100, hi=110), dict(K=3, lo=200, hi=210, join=True)])
     ctx.pmap(job, jobs)
 
 
 def concrete(c):
     progs = list(itertools.islice(programs(c['K']), c['lo'], c['hi']))
-    return decompile_all(build_dex(progs))
+    return decompile_all(build_dex(progs, c.get('join', False)))
 
 
 def run_java(src, name, args):
@@ -237,7 +256,7 @@ def run_java(src, name, args):
 
 def replay(w):
     prog = tuple((n[0], tuple(n[1]), tuple(n[2])) for n in w['prog'])
-    src = decompile_all(build_dex([prog]))['f0']
+    src = decompile_all(build_dex([prog], w.get('join', False)))['f0']
     if src.startswith('EXC '):
         return True, 'chain %r: %s' % (w['prog'], src[:200])
     try:
